@@ -134,6 +134,20 @@ func (v *astDeclareVistor) Process(node *Node) {
 				v.idsymtabl[key].Value = v.idMaxValue
 			}
 		}
+		// two tokens with one number cannot be told apart by the generated
+		// parser (its translate function would switch twice on that number)
+		byValue := make(map[int]string)
+		for _, key := range SortedIdNames(v.idsymtabl) {
+			id := v.idsymtabl[key]
+			if id.IDTyp != TERMID || id.Value == -1 {
+				continue
+			}
+			if other, dup := byValue[id.Value]; dup {
+				panic(fmt.Sprintf("tokens %s and %s have the same number %d",
+					RemoveTempName(other), RemoveTempName(key), id.Value))
+			}
+			byValue[id.Value] = key
+		}
 	}
 }
 
